@@ -826,6 +826,40 @@ def oracle_threads(case, res=None):
     return fails
 
 
+SYSTEMATIC = [
+    {'src': G.HEAD + '<ul><li py:for="x in xs" py:if="x">$x<b py:with="w=x">$w</b></li></ul>'
+                     '<p py:choose="a"><i py:when="1">one</i><i py:otherwise="">other</i></p>' + G.TAIL,
+     'files': {}, 'translator': False, 'auto_reload': True},
+    {'src': G.HEAD + '<py:def function="f(p)"><em>$p</em></py:def><span py:match="q">[${select("text()")}]</span>'
+                     '${f(a)}<q>$a</q><p i18n:msg="a" i18n:domain="foo">Hello $a</p>'
+                     '<div i18n:choose="n; n"><p i18n:singular="">One $n</p><p i18n:plural="">Many $n</p></div>' + G.TAIL,
+     'files': {}, 'translator': True, 'auto_reload': True},
+]
+SYSTEMATIC_DATA = [{'a': 1, 'n': 1, 'xs': [1, 0, 2]}, {'a': 'z', 'n': 3, 'xs': ['u']}]
+
+
+def threads_systematic(res, stride):
+    """preemption bound 2 over two rendering threads: thread 0 runs i lines, thread 1 runs j lines, then
+    thread 0 to its end, then thread 1 -- for a grid of (i, j); every run must render what a render alone renders"""
+    fails = []
+    for tspec in SYSTEMATIC:
+        n = 0
+        for i in range(0, 400, stride):
+            for j in range(0, 400, stride):
+                case = {'kind': 'threads', 'tmpl': tspec, 'data': SYSTEMATIC_DATA, 'prepared': True,
+                        'schedule': [0] * i + [1] * j + [0] * 4000}
+                f = oracle_threads(case, res)
+                n += 1
+                res.evaluations += 1
+                if f:
+                    fails.append(f[0])
+                    break
+            if fails:
+                break
+        res.count('kind:threads-systematic', n)
+    return fails
+
+
 def oracle_case(case, res=None):
     kind = case['kind']
     if kind == 'seq':
@@ -1554,6 +1588,7 @@ def run(ctx):
     for r in pmap('harness.props.c10', 'model_shard', [(ctx.seed, i, mper, variant) for i in range(nsh)]):
         res.merge(r)
     race_corr(ctx.rng('race'), ctx.n(150, 3000), res)
+    res.failures.extend(threads_systematic(res, ctx.n(40, 8)))
     res.rule = ('generated markup templates (py: directives in attribute and element form, macros, match templates, '
                 'includes through a loader, i18n directives) x API operation sequences / next() schedules over 2-3 open '
                 'renders / 2 threads under the line scheduler; model cases: templates of the modelled fragment x '
